@@ -533,7 +533,7 @@ func c11(c *wk.Ctx) {
 			}
 		}
 	}
-	reps := c.Pick(1, 6)
+	reps := c.Pick(1, 25)
 	c.Note("plans", fmt.Sprintf("%d plans x %d schedule repetitions", len(plans), reps))
 	c.Cases("plan", len(plans)*reps, func(i int, rng *rand.Rand) {
 		p := plans[i%len(plans)]
@@ -600,5 +600,5 @@ func c11(c *wk.Ctx) {
 			c.Sample(detail)
 		}
 	})
-	c.Cases("real", c.Pick(48, 1200), func(i int, rng *rand.Rand) { c11real(c, i, rng) })
+	c.Cases("real", c.Pick(48, 6000), func(i int, rng *rand.Rand) { c11real(c, i, rng) })
 }
